@@ -464,6 +464,8 @@ func (w *World) Exec(in M, mon *Monitors) any {
 		return M{"r": "ok"}
 	case "transfer":
 		return w.execTransfer(in, mon)
+	case "sendv2":
+		return w.execSendV2(in, mon)
 	case "recv":
 		return w.execRecv(in, mon)
 	case "ack":
@@ -626,6 +628,49 @@ func (w *World) execTransfer(in M, mon *Monitors) any {
 	mon.afterTransfer(w, in, p, before, after)
 	return M{"r": "ok", "seq": U(p.Seq), "pkt": M{"denom": ftpd.Denom, "amount": ftpd.Amount, "sender": w.sym(ftpd.Sender),
 		"receiver": w.sym(ftpd.Receiver), "dst": p.DstID, "v2": v2}, "delta": d}
+}
+
+// execSendV2 delivers a raw IBC v2 MsgSendPacket with one ICS-20 payload, signed by `signer`.
+func (w *World) execSendV2(in M, mon *Monitors) any {
+	c := num(in, "chain")
+	id := str(in, "chan")
+	link, hasLink := w.findLink(c, id)
+	_, ts := w.timeoutFor(str(in, "timeout"), c, true)
+	ftpd := transfertypes.FungibleTokenPacketData{Denom: str(in, "denom"), Amount: str(in, "amount"), Sender: w.real(str(in, "sender")),
+		Receiver: w.real(str(in, "receiver")), Memo: str(in, "memo")}
+	bz, _ := json.Marshal(ftpd)
+	payload := channeltypesv2.NewPayload("transfer", "transfer", transfertypes.V1, transfertypes.EncodingJSON, bz)
+	acc, ok := w.account(c, str(in, "signer"))
+	if !ok {
+		return M{"bad": "signer has no key on this chain"}
+	}
+	msg := channeltypesv2.NewMsgSendPacket(id, ts, acc.SenderAccount.GetAddress().String(), payload)
+	before := w.Snapshot(c)
+	res, err := w.deliver(c, acc, msg)
+	after := w.Snapshot(c)
+	d := Delta(before, after)
+	if err != nil {
+		mon.failedOp(in, "transfer", d)
+		if isPanicResult(res) {
+			return M{"r": "panic"}
+		}
+		return M{"r": "err", "cls": classOf(res, err)}
+	}
+	pk, perr := ibctesting.ParseV2PacketFromEvents(res.Events)
+	if perr != nil {
+		return M{"bad": "no v2 packet in events"}
+	}
+	p := &Pkt{Src: c, SrcID: id, V2: true, link: link, Sender: str(in, "sender"), Recvr: str(in, "receiver"), v2: pk, Seq: pk.Sequence,
+		DstID: pk.DestinationClient, TimeoutNs: pk.TimeoutTimestamp * 1_000_000_000, Denom: ftpd.Denom, Amount: parseAmount(ftpd.Amount)}
+	if hasLink {
+		p.Dst, _ = w.peerOf(link, c, id)
+	}
+	p.sendDelta = signedDelta(before, after)
+	w.pkts[pktKey(c, id, p.Seq)] = p
+	w.order = append(w.order, p)
+	mon.afterTransfer(w, in, p, before, after)
+	return M{"r": "ok", "seq": U(p.Seq), "pkt": M{"denom": ftpd.Denom, "amount": ftpd.Amount, "sender": w.sym(ftpd.Sender),
+		"receiver": w.sym(ftpd.Receiver), "dst": p.DstID, "v2": true}, "delta": d}
 }
 
 func (w *World) relayer(c int, in M) ibctesting.SenderAccount {
